@@ -525,6 +525,9 @@ func (s *c04Sim) setup() error {
 			for i := range d.ChunkFiles {
 				os.MkdirAll(d.ChunkTmp[i], 0o755)
 				c04WritePhase(st.Files["chunk"], d.ChunkFiles[i], d.ChunkTmp[i])
+				if st.Files["chunk"].RmTmp0 && i == 0 {
+					os.RemoveAll(d.ChunkTmp[i])
+				}
 			}
 			j := pick(st.Files["join"])
 			c04WritePhase(j, d.JoinFiles, d.JoinTmp)
